@@ -194,6 +194,19 @@ def run_case(case: dict) -> dict:
                                        "lic": [{"text": "CC0-1.0", "tree": {"key": "CC0-1.0", "base": "CC0-1.0"}}]}]}]
             p = projmodel.ensure_cls(p)
         m = projmodel.materialise(p, root, rnd, outside=d / "outside")
+        if case["tid"] % 4 == 1 and not case.get("locale_c"):
+            # one more covered file whose name is stored DECOMPOSED (e + U+0301): its section carries exactly that name
+            for f_ in list(p["files"]):
+                src_ = root.joinpath(*f_["path"])
+                if (f_["type"] == "text" and not f_.get("unreadable") and f_.get("ncls", "plain") == "plain" and not f_["dot"]["present"]
+                        and src_.is_file() and not src_.is_symlink()):
+                    g_ = json.loads(json.dumps(f_))
+                    g_["path"] = f_["path"][:-1] + ["re\u0301sume\u0301 " + f_["path"][-1]]
+                    g_["pathstr"] = "/".join(g_["path"])
+                    g_["pchars"] = list(g_["pathstr"])
+                    shutil.copyfile(src_, root.joinpath(*g_["path"]))
+                    p["files"].append(g_)
+                    break
         # every third text file gets DOS line endings (and one a lone CR LF inside): the checksum is over the bytes as they are
         for f_ in p["files"]:
             fp_ = root.joinpath(*f_["path"])
